@@ -50,6 +50,7 @@ func Harness_C11_q_read_write_perms() {
 	c := NewInt("yy")
 	c.Format = FormatInt32
 	c.Perms = perms
+	c.updateOnSameValue = verif.Choice("update-on-same-value", 2) == 1 // as NewProgrammableSwitchEvent sets it
 	readable := has(PermRead)
 	writable := has(PermWrite)
 	// pre-state: a readable characteristic holds an int, a write-only one holds nil
@@ -69,7 +70,7 @@ func Harness_C11_q_read_write_perms() {
 	} else {
 		c.UpdateValue(nv)
 	}
-	changed := !readable || old.(int) != nv
+	changed := !readable || old.(int) != nv || c.updateOnSameValue
 	if remote && !writable {
 		if readable {
 			verif.Assert(c.Value.(int) == old.(int), "no-pw-remote-write-leaves-value")
